@@ -192,6 +192,8 @@ func (w *c28World) dial(ctx context.Context, addr string) (net.Conn, error) {
 type c28Scenario struct {
 	Name      string
 	Buffer    int
+	MaxBound  int // 0: no cap; otherwise this scenario is explored with at most this many deviations
+	LazyNil   int // 0: the lazy builder returns a payload; 1: it returns nil; 2: it returns an empty, non-nil slice
 	CloseMode int // 0: Close after the emitters finished; 1: Close concurrently with the emitters; 2: two phases separated by a pause long enough for a reconnect, then Close
 	Faults    int
 	MaxConns  int
@@ -238,8 +240,18 @@ func c28Body(sc c28Scenario, w *c28World) func(e *vsched.Exec) {
 		})
 		vsched.GoNamed("emitterB", func() {
 			defer wg.Done()
-			id1 := c.EmitLazy(12, func() []byte { return []byte("b1") })
-			rec("emitterB", "b1", "", id1)
+			// the lazy event's payload is the tag by which the receiver oracle recognises it; in the
+			// nil / empty variants the tag is the empty string (a header-only frame must still be sent:
+			// the id was handed out and the receiver's numbering advances per frame)
+			b1 := []byte("b1")
+			switch sc.LazyNil {
+			case 1:
+				b1 = nil
+			case 2:
+				b1 = []byte{}
+			}
+			id1 := c.EmitLazy(12, func() []byte { return b1 })
+			rec("emitterB", string(b1), "", id1)
 			id2 := c.Emit(13, []byte("b2"))
 			rec("emitterB", "b2", "", id2)
 		})
@@ -610,6 +622,9 @@ func TestVerif_C28(t *testing.T) {
 		{Name: "buf1-close-after", Buffer: 1, CloseMode: 0, Faults: 2, MaxConns: 2},
 		{Name: "buf1-close-concurrent", Buffer: 1, CloseMode: 1, Faults: 2, MaxConns: 2},
 		{Name: "buf2-two-phase", Buffer: 2, CloseMode: 2, Faults: 2, MaxConns: 2},
+		// payload-shape variants: the defect class they are for needs no particular interleaving
+		{Name: "buf2-lazy-nil-payload", Buffer: 2, CloseMode: 0, Faults: 1, MaxConns: 2, LazyNil: 1, MaxBound: 1},
+		{Name: "buf2-lazy-empty-payload", Buffer: 2, CloseMode: 0, Faults: 1, MaxConns: 2, LazyNil: 2, MaxBound: 1},
 	}
 	totalStates := 0
 	for _, md := range modes {
@@ -627,7 +642,11 @@ func TestVerif_C28(t *testing.T) {
 				t.Fatalf("C28: default execution of %s is not deterministic", sc.Name)
 			}
 			var w *c28World
-			x := &vsched.Explorer{Bound: md.Bound, Shard: r.Shard, NShards: r.NShards,
+			bound := md.Bound
+			if sc.MaxBound > 0 && bound > sc.MaxBound {
+				bound = sc.MaxBound
+			}
+			x := &vsched.Explorer{Bound: bound, Shard: r.Shard, NShards: r.NShards,
 				Setup: func(e *vsched.Exec) {
 					w = &c28World{faults: sc.Faults, maxConns: sc.MaxConns, nodeInfo: nodeInfo, wantEmits: c28Want(sc)}
 					e.OnStep = c28OnStep(w)
@@ -646,7 +665,7 @@ func TestVerif_C28(t *testing.T) {
 				if len(vs) > 0 {
 					report(sc, e, w, vs, md.Free)
 				}
-				if r.WantSample() && e.Cost() == md.Bound {
+				if r.WantSample() && e.Cost() == bound {
 					r.Sample(map[string]interface{}{"mode": mname, "scenario": sc.Name, "choices": e.Choices(), "cost": e.Cost(), "class": class})
 				}
 			}
